@@ -22,6 +22,9 @@ if os.environ.get('VERIF_REPO', '/repo') != '/repo':
     # a run against a scratch copy (mutation self-test) must not overwrite
     # the evidence of the real tree
     EVIDENCE_DIR = os.path.join('/var/tmp', 'verif_scratch_evidence')
+if os.environ.get('VERIF_PART'):
+    # a debugging run of one part of a driver is not the registered check
+    EVIDENCE_DIR = os.path.join('/var/tmp', 'verif_scratch_evidence')
 REPLAY_DIR = os.path.join(VERIF, 'replay')
 FINDINGS = os.path.join(VERIF, 'known_findings.json')
 
